@@ -171,14 +171,15 @@ Definition InvD (s : st) : Prop :=
   (knd s = KDial -> rej s = false -> dsum s = 1)
   /\ dsum s <= 1
   /\ (knd s <> KDial -> dsum s = 0)
-  /\ (pend s = true -> closed s = true -> tears s <> []).
+  /\ (pend s = true -> closed s = true -> tears s <> [])
+  /\ (rej s = true -> dsum s = 0).
 
 Lemma init_D : InvD init.
 Proof. unfold InvD, dsum; cbn; repeat split; auto; try discriminate. Qed.
 
 Lemma step_D s a : InvK s -> InvD s -> InvD (fst (step s a)).
 Proof.
-  intros HK HD. pose proof HD as (D1 & D2 & D3 & D4). unfold dsum in *. destruct a; cbn [step].
+  intros HK HD. pose proof HD as (D1 & D2 & D3 & D4 & D5). unfold dsum in *. destruct a; cbn [step].
   - break; try exact HD; unfold InvD, dsum; simp; lens; fin.
   - break; try exact HD; unfold InvD, dsum; simp; lens; fin.
   - break; try exact HD. unfold InvD, dsum; simp; lens; simp; fin.
@@ -334,7 +335,7 @@ Qed.
 Lemma quiescent_dial s : Inv s -> quiescent s = true -> knd s = KDial -> rej s = false ->
   (closed s = true \/ pend s = false) -> exists r, dials s = [r].
 Proof.
-  intros (_ & _ & _ & (D1 & _ & _ & D4) & _) Hq Hk Hr Hc. apply quiescent_spec in Hq. destruct Hq as (T & K & J & I).
+  intros (_ & _ & _ & (D1 & _ & _ & D4 & _) & _) Hq Hk Hr Hc. apply quiescent_spec in Hq. destruct Hq as (T & K & J & I).
   specialize (D1 Hk Hr). unfold dsum in D1. rewrite K, J, I in D1. cbn in D1.
   assert (Hp : pend s = false).
   { destruct Hc as [Hc|Hp]; auto. destruct (pend s) eqn:Ep; auto. exfalso. apply (D4 eq_refl Hc). exact T. }
@@ -400,4 +401,55 @@ Proof.
       rewrite <- (step_flip s a HK Hc Ec1). exact Hf.
     + destruct (IH _ e (step_Inv s a HI) Ec1 Hf) as (pre & b & post & E1 & E2 & E3 & E4).
       exists (a :: pre), b, post. subst. cbn. repeat split; auto.
+Qed.
+
+(* operations on a closed connection; idempotent Close *)
+Lemma op_closed s k t o : closed s = true -> step s (AOp k t o) = (s, [EOp (cret s) k RClosed]) \/ knd s = KNone.
+Proof. intros Hc. cbn [step]. rewrite Hc. destruct (knd s); auto. Qed.
+
+Lemma cret_closed s : Inv s -> cret s = true -> closed s = true.
+Proof.
+  intros (_ & (_ & _ & _ & H4 & _) & _) Hr. destruct (closed s) eqn:Ec; auto. destruct (H4 eq_refl) as (_ & Hc & _). congruence.
+Qed.
+
+Lemma closed_started s : Inv s -> closed s = true -> knd s <> KNone.
+Proof. intros (HK & _) Hc Hk. rewrite (HK Hk) in Hc. discriminate. Qed.
+
+(* the kernel's verdict "established" comes from the kernel *)
+Lemma step_kern s a : kern (fst (step s a)) = KEstab ->
+  kern s = KEstab \/ a = AKernel None \/ exists r, a = ADial false r.
+Proof.
+  destruct a; cbn [step]; unfold teardown, set_closed; break; simp; auto; try discriminate; intros; subst; auto;
+    try (right; right; eexists; reflexivity); try congruence.
+Qed.
+
+Lemma run_kern acts : forall s, kern (run s acts) = KEstab ->
+  kern s = KEstab \/ In (AKernel None) acts \/ exists r, In (ADial false r) acts.
+Proof.
+  induction acts as [|a acts IH]; intros s H; cbn [run] in H; auto.
+  destruct (IH _ H) as [H1|[H1|[r H1]]].
+  - destruct (step_kern s a H1) as [H2|[H2|[r H2]]]; auto.
+    + right; left; left; auto.
+    + right; right; exists r; left; auto.
+  - right; left; right; auto.
+  - right; right; exists r; right; auto.
+Qed.
+
+(* once handed to an engine, whether the connection is managed / was rejected never changes *)
+Lemma step_managed s a : knd s <> KNone -> managed (fst (step s a)) = managed s /\ rej (fst (step s a)) = rej s.
+Proof.
+  intros Hk. destruct a; cbn [step]; unfold teardown, set_closed; break; simp; auto; congruence.
+Qed.
+
+Lemma run_managed acts : forall s, knd s <> KNone -> managed (run s acts) = managed s /\ rej (run s acts) = rej s.
+Proof.
+  induction acts as [|a acts IH]; intros s Hk; cbn [run]; auto.
+  destruct (step_managed s a Hk) as [H1 H2]. destruct (IH (fst (step s a))) as [H3 H4]; [rewrite step_knd; auto|]. split; congruence.
+Qed.
+
+(* a rejected dial: nothing is ever delivered *)
+Lemma rejected_silent s : Inv s -> knd s = KDial -> rej s = true -> managed s = false -> notes s = [] /\ dials s = [].
+Proof.
+  intros (_ & (_ & H2 & _) & _ & (_ & _ & _ & _ & D5) & _) Hk Hr Hm.
+  destruct (H2 Hm) as [Hz _]. specialize (D5 Hr). unfold dsum in D5. split; apply length_zero_iff_nil; lia.
 Qed.
